@@ -2033,7 +2033,11 @@ def m_coll_map(ex, st, fr, callee, args, argtys, dty):
     for pres, val in c.items:
         r = ex.closure_value(st, args[1], [Ref(ex.new_cell(st, val))])
         if r is None:
-            return NotImplemented
+            # a function item that cannot be resolved to one MIR body: element-wise uninterpreted application
+            f = args[1]
+            if not isinstance(f, FnItem):
+                return NotImplemented
+            r = ex.app(normalize_callee(f.text), [val], _generic_arg(dty, 1) if False else "?", st)
         out.append((pres, r))
     return SymColl(out, "iter")
 
